@@ -240,6 +240,9 @@ def plan(tier):
     return {
         "design": [("single", dict(max_events=1, wfc=2, liveness=True)),
                    ("media", dict(max_events=1, wfc=1, liveness=True, traffic=True, phases=["mediaFlowing"])),
+                   ("answerer", dict(max_events=1, wfc=1, liveness=True, answerer=True,
+                                     phases=["created", "offerMade", "checking", "dtlsHandshaking", "sctpConnecting",
+                                             "channelsOpen"])),
                    ("pairs-safety", dict(max_events=2, wfc=0, liveness=False, ev2=["Close", "Drop"])),
                    ("rtp", dict(max_events=1, wfc=1, liveness=True, mode="Rtp", dc=False,
                                 ev1=["Close", "Drop", "IceStop"])),
